@@ -216,6 +216,8 @@ def preambleOp (toks : List String) : String :=
 def authOp (toks : List String) : String :=
   match toks with
   | kind :: exp :: eof :: chunks =>
+    -- `~ms` tokens are pauses between chunks: the verdict depends on the bytes only
+    let chunks := chunks.filter (fun c => !c.startsWith "~")
     match bytesOfHex exp, allSome (chunks.map bytesOfHex) with
     | some exp, some cs =>
       -- kind `pw`: the field is the configured password, the server compares with its SHA-256
